@@ -417,6 +417,9 @@ func (p *Program) verifyLemma(name string, si *SpecInfo) *FuncResult {
 
 // ---- discharging ------------------------------------------------------------------------------------------
 
+// obligations listed as open known findings: they are expected not to discharge, so little time is spent on them
+var expectedToFail = map[string]bool{}
+
 func dischargeAll(results []*FuncResult, timeout time.Duration, workdir string, par int, filter func(o *Obligation) bool) {
 	type leaf struct {
 		o    *Obligation // owning (reported) obligation
@@ -474,8 +477,12 @@ func dischargeAll(results []*FuncResult, timeout time.Duration, workdir string, 
 			for l := range ch {
 				sub := *l.src
 				sub.Goal = l.goal
-				r := solve(l.src.vc.query(&sub, true), timeout, workdir, l.tag, true)
-				if r.Status != "unsat" && r.Status != "sat" && l.src.vc.oracle == nil {
+				to := timeout
+				if expectedToFail[l.o.Name] && to > 8*time.Second {
+					to = 8 * time.Second // listed known finding: it is expected not to discharge
+				}
+				r := solve(l.src.vc.query(&sub, true), to, workdir, l.tag, true)
+				if r.Status != "unsat" && r.Status != "sat" && l.src.vc.oracle == nil && !expectedToFail[l.o.Name] {
 					if cr, ok := caseSplit(l.src.vc, &sub, timeout, workdir, l.tag); ok {
 						r = cr
 					}
@@ -493,8 +500,8 @@ func dischargeAll(results []*FuncResult, timeout time.Duration, workdir string, 
 	// machine was busy (an undecided query under load must not turn into an alarm)
 	retried := 0
 	for _, l := range leaves {
-		if l.res.Status == "unsat" || l.res.Status == "sat" || retried >= 12 {
-			continue
+		if l.res.Status != "timeout" || retried >= 4 || expectedToFail[l.o.Name] {
+			continue // "unknown" means the solvers gave up early: more time does not help
 		}
 		retried++
 		sub := *l.src
